@@ -227,4 +227,4 @@ PROPS["C08"]["apalache"] = [("quant-rule", "apalache/QuantRule.tla", [["--init=I
 PROPS["C04"]["apalache"] = [_MIDI_IND]
 PROPS["C05"]["apalache"] = [_MIDI_IND]
 
-HOOK_COMMITS = ["36838b7", "ded5069"]
+HOOK_COMMITS = ["36838b7", "ded5069", "03075b1"]
